@@ -47,6 +47,10 @@ def run(chk):
         others = [ef for ef in p.effects if ef[0] == "expr"]
         notnone = f.get("self.qweight is None")
         site = f"{mi.rel}:{p.end[2]}"
+        already = f.get("self.frozen") is True or any(v is True and k.startswith("isinstance(self.weight, Q") for k, v in f.items())
+        if already and not stores and not others and notnone is None:
+            chk.ok("C09.R1", site, "freeze (already frozen): an early exit that writes nothing - freezing again changes nothing")
+            continue
         if notnone is False:
             ok = len(stores) == 1 and stores[0][0] == "store" and U(stores[0][1]) == "self" and stores[0][2] == "weight" and isinstance(stores[0][3], ast.Call) and U(stores[0][3].func) == "torch.nn.Parameter" and U(_first_arg(stores[0][3], "data")) == "self.qweight"
             chk.require("C09.R1", site, ok and not others, f"freeze (weights quantized): self.weight = Parameter(self.qweight) and nothing else ({[U(s[3])[:60] if s[0]=='store' else s[0] for s in stores]})", "QModuleMixin.freeze", "freeze assignment", "freeze(): the stored weight is not the quantized weight the dynamic path computes")
